@@ -155,8 +155,13 @@ structure Inv (s : Sys) : Prop where
   inflCid : ∀ e ∈ s.pub.inflight, e.1 ≤ s.store.cid
   curMax : ∀ cur, s.pub.completed.getLast? = some cur → ∀ c ∈ s.pub.completed, c ≤ cur
   compWr : ∀ c ∈ s.pub.completed, c ∈ s.pub.written
-  notifSorted : (s.pub.delivered ++ s.pub.notifs.flatten).Pairwise (· < ·)
+  queueSorted : s.pub.notifs.flatten.Pairwise (· < ·)
+  notifSorted : s.pub.fifo = true → (s.pub.delivered ++ s.pub.notifs.flatten).Pairwise (· < ·)
   notifLe : ∀ k ∈ s.pub.delivered ++ s.pub.notifs.flatten, ∃ c ∈ s.pub.completed, k ≤ c
+  notifWr : ∀ k ∈ s.pub.delivered ++ s.pub.notifs.flatten, k ∈ s.pub.written
+  wrFin : ∀ n ∈ s.pub.written, n ∈ s.pub.initial ∨ ∃ snap ∈ s.pub.finished, snap.id = n
+  inflFin : ∀ e ∈ s.pub.inflight, ∃ snap ∈ s.pub.finished, snap.id = e.1
+  finGood : ∀ snap ∈ s.pub.finished, snap.WF ∧ snap.isComplete = true
 
 theorem Inv.wr_le_max {s : Sys} (hi : Inv s) {w : Nat} (hw : w ∈ s.pub.written) : w ≤ maxL s.pub.files := by
   obtain ⟨f, hf, hle⟩ := hi.wrFile w hw
@@ -172,10 +177,14 @@ theorem Inv.files_ne {s : Sys} (hi : Inv s) (h : s.pub.written ≠ []) : s.pub.f
   obtain ⟨f, hf, _⟩ := hi.wrFile _ (maxL_mem h)
   intro he; rw [he] at hf; simp at hf
 
-theorem inv_boot {files written delivered : List Nat}
+theorem inv_boot {files written delivered initial : List Nat} {finished : List Store.Snap} {fifo : Bool}
     (h1 : ∀ w ∈ written, ∃ f ∈ files, w ≤ f) (h2 : ∀ f ∈ files, f ∈ written)
-    (h3 : delivered.Pairwise (· < ·)) (h4 : ∀ k ∈ delivered, ∃ w ∈ written, k ≤ w) :
-    Inv (boot files written delivered) := by
+    (h3 : fifo = true → delivered.Pairwise (· < ·)) (h4 : ∀ k ∈ delivered, k ∈ written)
+    (h5 : ∀ n ∈ written, n ∈ initial ∨ ∃ snap ∈ finished, snap.id = n)
+    (h6 : ∀ snap ∈ finished, snap.WF ∧ snap.isComplete = true) :
+    Inv (boot files written delivered initial finished fifo) := by
+  have hmax : ∀ w ∈ written, w ≤ maxL files := by
+    intro w hw; obtain ⟨f, hf', hle⟩ := h1 w hw; exact Nat.le_trans hle (le_maxL hf')
   by_cases hf : files = []
   · subst hf
     have hw : written = [] := by
@@ -186,7 +195,7 @@ theorem inv_boot {files written delivered : List Nat}
     have hd : delivered = [] := by
       cases delivered with
       | nil => rfl
-      | cons a t => obtain ⟨w, hw, _⟩ := h4 a List.mem_cons_self; simp at hw
+      | cons a t => have := h4 a List.mem_cons_self; simp at this
     subst hd
     exact {
       store := ⟨[], by intro p hp; simp [boot] at hp⟩
@@ -198,11 +207,14 @@ theorem inv_boot {files written delivered : List Nat}
       inflCid := by simp [boot]
       curMax := by simp [boot, load_nil]
       compWr := by simp [boot, load_nil]
+      queueSorted := by simp [boot]
       notifSorted := by simp [boot]
-      notifLe := by simp [boot] }
+      notifLe := by simp [boot]
+      notifWr := by simp [boot]
+      wrFin := by simp [boot]
+      inflFin := by simp [boot]
+      finGood := by simpa [boot] using h6 }
   · have hl := load_of_ne hf
-    have hmax : ∀ w ∈ written, w ≤ maxL files := by
-      intro w hw; obtain ⟨f, hf', hle⟩ := h1 w hw; exact Nat.le_trans hle (le_maxL hf')
     exact {
       store := ⟨[], by intro p hp; simp [boot] at hp⟩
       wrFile := by simpa [boot] using h1
@@ -213,15 +225,19 @@ theorem inv_boot {files written delivered : List Nat}
       inflCid := by simp [boot]
       curMax := by simp [boot, hl]
       compWr := by simp only [boot, hl, Option.toList_some, List.mem_singleton]; intro c hc; subst hc; exact h2 _ (maxL_mem hf)
+      queueSorted := by simp [boot]
       notifSorted := by simpa [boot] using h3
       notifLe := by
         simp only [boot, hl, Option.toList_some, List.flatten_nil, List.append_nil, List.mem_singleton]
         intro k hk
-        obtain ⟨w, hw, hle⟩ := h4 k hk
-        exact ⟨_, rfl, Nat.le_trans hle (hmax w hw)⟩ }
+        exact ⟨_, rfl, hmax k (h4 k hk)⟩
+      notifWr := by simpa [boot] using h4
+      wrFin := by simpa [boot] using h5
+      inflFin := by simp [boot]
+      finGood := by simpa [boot] using h6 }
 
 theorem inv_init (files0 : List Nat) : Inv (init files0) :=
-  inv_boot (fun w hw => ⟨w, hw, Nat.le_refl _⟩) (fun _ h => h) (by simp) (by simp)
+  inv_boot (fun w hw => ⟨w, hw, Nat.le_refl _⟩) (fun _ h => h) (by simp) (by simp) (fun n hn => Or.inl hn) (by simp)
 
 /-! ### preservation -/
 
@@ -245,13 +261,18 @@ theorem inv_call {s : Sys} (hi : Inv s) (c : Store.Call) {s' : Sys} {obs : List 
       inflCid := fun e he => Nat.le_trans (hi.inflCid e he) hle
       curMax := hi.curMax
       compWr := hi.compWr
+      queueSorted := hi.queueSorted
       notifSorted := hi.notifSorted
-      notifLe := hi.notifLe }
+      notifLe := hi.notifLe
+      notifWr := hi.notifWr
+      wrFin := hi.wrFin
+      inflFin := hi.inflFin
+      finGood := hi.finGood }
   | some snap =>
     rw [hf] at h
     simp only [Option.some.injEq, Prod.mk.injEq] at h
     obtain ⟨rfl, _⟩ := h
-    obtain ⟨_, hid, hcid, _⟩ := hpub snap hf
+    obtain ⟨hgood, hid, hcid, _⟩ := hpub snap hf
     exact {
       store := ⟨_, hs'⟩
       wrFile := hi.wrFile
@@ -272,8 +293,28 @@ theorem inv_call {s : Sys} (hi : Inv s) (c : Store.Call) {s' : Sys} {obs : List 
         · subst he; simp only; omega
       curMax := hi.curMax
       compWr := hi.compWr
+      queueSorted := hi.queueSorted
       notifSorted := hi.notifSorted
-      notifLe := hi.notifLe }
+      notifLe := hi.notifLe
+      notifWr := hi.notifWr
+      wrFin := by
+        intro n hn
+        rcases hi.wrFin n hn with h | ⟨sn, hs, he⟩
+        · exact Or.inl h
+        · exact Or.inr ⟨sn, List.mem_append_left _ hs, he⟩
+      inflFin := by
+        intro e he
+        simp only [List.mem_append, List.mem_singleton] at he
+        rcases he with he | he
+        · obtain ⟨sn, hs, heq⟩ := hi.inflFin e he
+          exact ⟨sn, List.mem_append_left _ hs, heq⟩
+        · subst he; exact ⟨snap, List.mem_append_right _ List.mem_cons_self, rfl⟩
+      finGood := by
+        intro sn hs
+        simp only [List.mem_append, List.mem_singleton] at hs
+        rcases hs with hs | hs
+        · exact hi.finGood sn hs
+        · subst hs; exact ⟨hgood.wf, hgood.complete⟩ }
 
 theorem inv_write {s : Sys} (hi : Inv s) (n : Nat) {s' : Sys} {obs : List Obs}
     (h : step s (.write n) = some (s', obs)) : Inv s' := by
@@ -331,8 +372,24 @@ theorem inv_write {s : Sys} (hi : Inv s) (n : Nat) {s' : Sys} {obs : List Obs}
         · rw [if_neg hen] at heq; subst heq; exact hi.inflCid _ he0
       curMax := hi.curMax
       compWr := fun c hc => List.mem_cons_of_mem _ (hi.compWr c hc)
+      queueSorted := hi.queueSorted
       notifSorted := hi.notifSorted
-      notifLe := hi.notifLe }
+      notifLe := hi.notifLe
+      notifWr := fun k hk => List.mem_cons_of_mem _ (hi.notifWr k hk)
+      wrFin := by
+        intro w hw
+        simp only [List.mem_cons] at hw
+        rcases hw with hw | hw
+        · subst hw; exact Or.inr (hi.inflFin _ hin)
+        · exact hi.wrFin w hw
+      inflFin := by
+        intro e he
+        simp only [List.mem_map] at he
+        obtain ⟨e0, he0, heq⟩ := he
+        by_cases hen : e0 = (n, false)
+        · rw [if_pos hen] at heq; subst heq; subst hen; exact hi.inflFin (n, false) he0
+        · rw [if_neg hen] at heq; subst heq; exact hi.inflFin _ he0
+      finGood := hi.finGood }
   · rw [if_neg hin] at h; exact absurd h (by simp)
 
 theorem inv_lock {s : Sys} (hi : Inv s) (n : Nat) {s' : Sys} {obs : List Obs}
@@ -404,7 +461,30 @@ theorem inv_lock {s : Sys} (hi : Inv s) (n : Nat) {s' : Sys} {obs : List Obs}
         rcases hc with hc | hc
         · subst hc; exact hnw
         · exact hi.compWr c (List.mem_filter.mp hc).1
+      queueSorted := by
+        simp only
+        split
+        · rename_i hd
+          simp only [Bool.and_eq_true, Bool.not_eq_true', List.isEmpty_iff] at hd
+          rw [List.flatten_append]
+          simp only [List.flatten_cons, List.flatten_nil, List.append_nil]
+          rw [List.pairwise_append]
+          refine ⟨hi.queueSorted, by simp, ?_⟩
+          intro a ha b hb
+          simp only [List.mem_singleton] at hb
+          subst hb
+          obtain ⟨c, hc, hle⟩ := hi.notifLe a (List.mem_append_right _ ha)
+          have hcn : c < b := by
+            by_cases hlt : c < b
+            · exact hlt
+            · have : c ∈ s.pub.completed.filter (fun c => decide ¬ c < b) :=
+                List.mem_filter.mpr ⟨hc, by simpa using hlt⟩
+              rw [hd.2] at this; simp at this
+          omega
+        · exact hi.queueSorted
       notifSorted := by
+        intro hfifo
+        have hold := hi.notifSorted hfifo
         simp only
         split
         · rename_i hd
@@ -412,7 +492,7 @@ theorem inv_lock {s : Sys} (hi : Inv s) (n : Nat) {s' : Sys} {obs : List Obs}
           rw [List.flatten_append, ← List.append_assoc]
           simp only [List.flatten_cons, List.flatten_nil, List.append_nil]
           rw [List.pairwise_append]
-          refine ⟨hi.notifSorted, by simp, ?_⟩
+          refine ⟨hold, by simp, ?_⟩
           intro a ha b hb
           simp only [List.mem_singleton] at hb
           subst hb
@@ -424,7 +504,7 @@ theorem inv_lock {s : Sys} (hi : Inv s) (n : Nat) {s' : Sys} {obs : List Obs}
                 List.mem_filter.mpr ⟨hc, by simpa using hlt⟩
               rw [hd.2] at this; simp at this
           omega
-        · exact hi.notifSorted
+        · exact hold
       notifLe := by
         intro k hk
         simp only at hk ⊢
@@ -442,7 +522,21 @@ theorem inv_lock {s : Sys} (hi : Inv s) (n : Nat) {s' : Sys} {obs : List Obs}
           by_cases hlt : c < n
           · exact ⟨n, List.mem_cons_self, by omega⟩
           · exact ⟨c, List.mem_cons_of_mem _ (List.mem_filter.mpr ⟨hc, by simpa using hlt⟩), hle⟩
-        · subst hk'; exact ⟨k, List.mem_cons_self, Nat.le_refl _⟩ }
+        · subst hk'; exact ⟨k, List.mem_cons_self, Nat.le_refl _⟩
+      notifWr := by
+        intro k hk
+        simp only at hk ⊢
+        split at hk
+        · rw [List.flatten_append, ← List.append_assoc] at hk
+          simp only [List.flatten_cons, List.flatten_nil, List.append_nil, List.mem_append,
+            List.mem_singleton] at hk
+          rcases hk with hk | hk
+          · exact hi.notifWr k (List.mem_append.mpr hk)
+          · subst hk; exact hnw
+        · exact hi.notifWr k hk
+      wrFin := hi.wrFin
+      inflFin := fun e he => hi.inflFin e (List.mem_filter.mp he).1
+      finGood := hi.finGood }
   · rw [if_neg hin] at h; exact absurd h (by simp)
 
 theorem inv_remove {s : Sys} (hi : Inv s) (ids : List Nat) {s' : Sys} {obs : List Obs}
@@ -483,21 +577,46 @@ theorem inv_remove {s : Sys} (hi : Inv s) (ids : List Nat) {s' : Sys} {obs : Lis
       inflCid := hi.inflCid
       curMax := hi.curMax
       compWr := hi.compWr
+      queueSorted := hi.queueSorted
       notifSorted := hi.notifSorted
-      notifLe := hi.notifLe }
+      notifLe := hi.notifLe
+      notifWr := hi.notifWr
+      wrFin := hi.wrFin
+      inflFin := hi.inflFin
+      finGood := hi.finGood }
   · rw [if_neg hin] at h; exact absurd h (by simp)
 
-theorem inv_deliver {s : Sys} (hi : Inv s) {s' : Sys} {obs : List Obs}
-    (h : step s .deliver = some (s', obs)) : Inv s' := by
+theorem mem_eraseIdx_flatten {l : List (List Nat)} {k x : Nat} (h : x ∈ (l.eraseIdx k).flatten) : x ∈ l.flatten := by
+  simp only [List.mem_flatten] at h ⊢
+  obtain ⟨ids, hids, hx⟩ := h
+  exact ⟨ids, List.mem_of_mem_eraseIdx hids, hx⟩
+
+theorem flatten_eraseIdx_sublist (l : List (List Nat)) (k : Nat) : (l.eraseIdx k).flatten.Sublist l.flatten := by
+  induction l generalizing k with
+  | nil => simp
+  | cons a t ih =>
+    cases k with
+    | zero => simp only [List.eraseIdx_cons_zero, List.flatten_cons]; exact List.sublist_append_right _ _
+    | succ k => simp only [List.eraseIdx_cons_succ, List.flatten_cons]; exact List.Sublist.append (List.Sublist.refl _) (ih k)
+
+theorem inv_deliver {s : Sys} (hi : Inv s) (k : Nat) {s' : Sys} {obs : List Obs}
+    (h : step s (.deliver k) = some (s', obs)) : Inv s' := by
   simp only [step] at h
-  cases hn : s.pub.notifs with
-  | nil => rw [hn] at h; exact absurd h (by simp)
-  | cons ids rest =>
+  cases hn : s.pub.notifs[k]? with
+  | none => rw [hn] at h; exact absurd h (by simp)
+  | some ids =>
     rw [hn] at h
     simp only [Option.some.injEq, Prod.mk.injEq] at h
     obtain ⟨rfl, _⟩ := h
-    have heq : (s.pub.delivered ++ ids) ++ rest.flatten = s.pub.delivered ++ s.pub.notifs.flatten := by
-      rw [hn, List.flatten_cons, List.append_assoc]
+    have hmem : ids ∈ s.pub.notifs := List.mem_of_getElem? hn
+    have hsub : ∀ x ∈ (s.pub.delivered ++ ids) ++ (s.pub.notifs.eraseIdx k).flatten,
+        x ∈ s.pub.delivered ++ s.pub.notifs.flatten := by
+      intro x hx
+      simp only [List.mem_append] at hx ⊢
+      rcases hx with (hx | hx) | hx
+      · exact Or.inl hx
+      · exact Or.inr (List.mem_flatten.mpr ⟨ids, hmem, hx⟩)
+      · exact Or.inr (mem_eraseIdx_flatten hx)
     exact {
       store := hi.store
       wrFile := hi.wrFile
@@ -508,18 +627,38 @@ theorem inv_deliver {s : Sys} (hi : Inv s) {s' : Sys} {obs : List Obs}
       inflCid := hi.inflCid
       curMax := hi.curMax
       compWr := hi.compWr
-      notifSorted := by simp only; rw [heq]; exact hi.notifSorted
-      notifLe := by simp only; rw [heq]; exact hi.notifLe }
+      queueSorted := by
+        simp only
+        exact List.Pairwise.sublist (flatten_eraseIdx_sublist _ _) hi.queueSorted
+      notifSorted := by
+        intro hf
+        simp only [Bool.and_eq_true, beq_iff_eq] at hf
+        obtain ⟨hf1, hk0⟩ := hf
+        subst hk0
+        cases hq : s.pub.notifs with
+        | nil => rw [hq] at hn; simp at hn
+        | cons a rest =>
+          rw [hq] at hn
+          simp only [List.getElem?_cons_zero, Option.some.injEq] at hn
+          subst hn
+          have := hi.notifSorted hf1
+          rw [hq, List.flatten_cons, ← List.append_assoc] at this
+          simpa [List.eraseIdx] using this
+      notifLe := fun x hx => hi.notifLe x (hsub x hx)
+      notifWr := fun x hx => hi.notifWr x (hsub x hx)
+      wrFin := hi.wrFin
+      inflFin := hi.inflFin
+      finGood := hi.finGood }
 
 theorem inv_crash {s : Sys} (hi : Inv s) {s' : Sys} {obs : List Obs}
     (h : step s .crash = some (s', obs)) : Inv s' := by
   simp only [step, Option.some.injEq, Prod.mk.injEq] at h
   obtain ⟨rfl, _⟩ := h
   apply inv_boot hi.wrFile hi.fileWr
-  · exact (List.pairwise_append.mp hi.notifSorted).1
-  · intro k hk
-    obtain ⟨c, hc, hle⟩ := hi.notifLe k (List.mem_append_left _ hk)
-    exact ⟨c, hi.compWr c hc, hle⟩
+  · intro hf; exact (List.pairwise_append.mp (hi.notifSorted hf)).1
+  · intro k hk; exact hi.notifWr k (List.mem_append_left _ hk)
+  · exact hi.wrFin
+  · exact hi.finGood
 
 theorem step_inv {s : Sys} (hi : Inv s) (a : Act) {s' : Sys} {obs : List Obs}
     (h : step s a = some (s', obs)) : Inv s' := by
@@ -528,7 +667,7 @@ theorem step_inv {s : Sys} (hi : Inv s) (a : Act) {s' : Sys} {obs : List Obs}
   | write n => exact inv_write hi n h
   | lock n => exact inv_lock hi n h
   | remove ids => exact inv_remove hi ids h
-  | deliver => exact inv_deliver hi h
+  | deliver k => exact inv_deliver hi k h
   | crash => exact inv_crash hi h
 
 theorem run_inv (as : List Act) : ∀ {s s' : Sys} {obs : List Obs}, Inv s → run s as = some (s', obs) → Inv s' := by
@@ -551,5 +690,59 @@ theorem run_inv (as : List Act) : ∀ {s s' : Sys} {obs : List Obs}, Inv s → r
         simp only [Option.some.injEq, Prod.mk.injEq] at h
         rw [← h.1]
         exact ih (step_inv hi a hs) hr
+
+/-- the starting storage content is a constant of a run -/
+theorem step_initial {s s' : Sys} {a : Act} {obs : List Obs} (h : step s a = some (s', obs)) :
+    s'.pub.initial = s.pub.initial := by
+  cases a with
+  | call c =>
+    simp only [step] at h
+    cases hf : (Store.step s.store c).2.2 with
+    | none => rw [hf] at h; simp only [Option.some.injEq, Prod.mk.injEq] at h; rw [← h.1]
+    | some snap => rw [hf] at h; simp only [Option.some.injEq, Prod.mk.injEq] at h; rw [← h.1]
+  | write n =>
+    simp only [step] at h
+    split at h
+    · simp only [Option.some.injEq, Prod.mk.injEq] at h; rw [← h.1]
+    · exact absurd h (by simp)
+  | lock n =>
+    simp only [step] at h
+    split at h
+    · simp only [lockUpdate, Option.some.injEq, Prod.mk.injEq] at h; rw [← h.1]
+    · exact absurd h (by simp)
+  | remove ids =>
+    simp only [step] at h
+    split at h
+    · simp only [Option.some.injEq, Prod.mk.injEq] at h; rw [← h.1]
+    · exact absurd h (by simp)
+  | deliver k =>
+    simp only [step] at h
+    split at h
+    · exact absurd h (by simp)
+    · simp only [Option.some.injEq, Prod.mk.injEq] at h; rw [← h.1]
+  | crash =>
+    simp only [step, Option.some.injEq, Prod.mk.injEq] at h
+    rw [← h.1]; rfl
+
+theorem run_initial (as : List Act) : ∀ {s s' : Sys} {obs : List Obs}, run s as = some (s', obs) →
+    s'.pub.initial = s.pub.initial := by
+  induction as with
+  | nil => intro s s' obs h; simp only [run, Option.some.injEq, Prod.mk.injEq] at h; rw [← h.1]
+  | cons a t ih =>
+    intro s s' obs h
+    simp only [run] at h
+    cases hs : step s a with
+    | none => rw [hs] at h; exact absurd h (by simp)
+    | some r =>
+      obtain ⟨s1, o1⟩ := r
+      rw [hs] at h
+      simp only at h
+      cases hr : run s1 t with
+      | none => rw [hr] at h; exact absurd h (by simp)
+      | some r2 =>
+        obtain ⟨s2, o2⟩ := r2
+        rw [hr] at h
+        simp only [Option.some.injEq, Prod.mk.injEq] at h
+        rw [← h.1, ih hr, step_initial hs]
 
 end Rxn.Publish
